@@ -9,6 +9,7 @@ import (
 	"sort"
 	"strings"
 	"sync/atomic"
+	"verif/refimpl"
 
 	"github.com/biogo/hts/bgzf"
 	"github.com/biogo/hts/bgzf/cache"
@@ -30,13 +31,18 @@ func init() {
 type rfile struct {
 	lens    []int
 	marker  bool
-	corrupt int // 1+index of a member whose CRC32 is wrong (0: none); only for the differential search
+	corrupt int  // 1+index of a member whose CRC32 is wrong (0: none); only for the differential search
+	xfirst  bool // every member carries another extra subfield before the BC subfield
 }
 
 // mkFile builds the file; a corrupt member keeps its framing and deflate data, only the stored
 // CRC32 is wrong, so every reader must fail on it in the same way each time it is decoded.
 func mkFile(name string, lens []int, marker bool, corrupt int) *rdr.File {
 	f := rdr.MakeFile(name, lens, marker)
+	if corrupt < 0 { // -1: the extra-subfield-first layout
+		f.Data, f.Bases = refimpl.EncodeFileExtraFirst(f.Blocks, 1, marker)
+		return f
+	}
 	if corrupt > 0 {
 		f.Data = append([]byte(nil), f.Data...)
 		f.Data[f.Bases[corrupt]-8] ^= 0xff
@@ -51,6 +57,9 @@ func (f rfile) name() string {
 	}
 	if f.corrupt > 0 {
 		s += fmt.Sprintf(" (member %d has a wrong CRC)", f.corrupt-1)
+	}
+	if f.xfirst {
+		s += " (another extra subfield before BC)"
 	}
 	return s
 }
@@ -253,7 +262,7 @@ func runHistory(c *Ctx, f *rdr.File, cas bfsCase, withCache bool, probe bool) (k
 		if withCache && cur != nil && aliased(r, cur) {
 			key2 = "ALIAS " + key2
 		}
-		if probe && cas.Bad == 0 {
+		if probe && cas.Bad <= 0 {
 			// differential guard for the state key: from any state, reading everything must
 			// give the rest of the flat data (the model knows the position)
 			r.Blocked = false
@@ -277,6 +286,9 @@ func runHistory(c *Ctx, f *rdr.File, cas bfsCase, withCache bool, probe bool) (k
 }
 
 func bfsOne(c *Ctx, rf rfile, cacheKind string, cacheCap int, withCache bool, st *bfsStats, maxStates int) {
+	if rf.xfirst {
+		rf.corrupt = -1
+	}
 	f := mkFile(rf.name(), rf.lens, rf.marker, rf.corrupt)
 	menu := readerMenu(f, cacheKind, cacheCap)
 	mk := func(ops []rdr.Op) bfsCase {
@@ -404,7 +416,8 @@ func readerBFS(c *Ctx, withCache bool) {
 	}
 	var st bfsStats
 	if !withCache {
-		c.Rule = "rd=1, no cache: BFS to a fixpoint over histories of {Seek(every block incl. the EOF marker, offset 0/mid/len), Read(0,1,2,4,all), ReadByte, Blocked on/off} on files with block lengths [3 1 2], [2 0 3], [1 2 0] with and without EOF marker (thorough adds [65280 1] and [1 0 0 2]); files built by the independent BGZF encoder; state key = dump of the Reader's mutable fields (current block base/offset/remaining/used, sticky error, Blocked, lastChunk); every transition compared with the flat model (bytes, io.EOF exactly at end of data / of block in Blocked mode, LastChunk translating to the flat positions before/after the bytes); every transition merged into a known state is followed by a probe (read to the end must return the rest of the flat data). Non-trivial: transitions whose last op is a Seek or a read."
+		c.Rule = "rd=1, no cache: BFS to a fixpoint over histories of {Seek(every block incl. the EOF marker, offset 0/mid/len), Read(0,1,2,4,all), ReadByte, Blocked on/off} on files with block lengths [3 1 2], [2 0 3], [1 2 0] with and without EOF marker (thorough adds [65280 1] and [1 0 0 2]); files built by the independent BGZF encoder (one of them with another gzip extra subfield in front of the BC subfield in every member); state key = dump of the Reader's mutable fields (current block base/offset/remaining/used, sticky error, Blocked, lastChunk); every transition compared with the flat model (bytes, io.EOF exactly at end of data / of block in Blocked mode, LastChunk translating to the flat positions before/after the bytes); every transition merged into a known state is followed by a probe (read to the end must return the rest of the flat data). Non-trivial: transitions whose last op is a Seek or a read."
+		files = append(files, rfile{lens: []int{3, 1, 2}, marker: true, xfirst: true})
 		for _, rf := range files {
 			bfsOne(c, rf, "", 0, false, &st, 0)
 		}
